@@ -293,4 +293,77 @@ theorem dedupFold_cover {α : Type} (fold : Char → List Char) (seen : List Str
           · left; exact h
         · right; exact ⟨y, List.mem_cons_of_mem _ hy, he⟩
 
+/-! ## distinct keys; the directory backend over a file set -/
+
+theorem dictSet_of_not_mem {ν : Type} (d : List (Str × ν)) (k : Str) (v : ν)
+    (h : k ∉ d.map (·.1)) : dictSet d k v = d ++ [(k, v)] := by
+  induction d with
+  | nil => rfl
+  | cons x r ih =>
+    obtain ⟨k', v'⟩ := x
+    simp only [List.map_cons, List.mem_cons, not_or] at h
+    rw [dictSet]
+    have : ¬ k' = k := fun e => h.1 e.symm
+    simp only [this, if_false, ih h.2, List.cons_append]
+
+theorem dictOf_aux_of_nodup {ν : Type} (l d : List (Str × ν))
+    (h : ((d ++ l).map (·.1)).Nodup) :
+    l.foldl (fun d kv => dictSet d kv.1 kv.2) d = d ++ l := by
+  induction l generalizing d with
+  | nil => simp
+  | cons x r ih =>
+    simp only [List.foldl_cons]
+    have hx : x.1 ∉ d.map (·.1) := by
+      simp only [List.map_append, List.map_cons] at h
+      have := (List.nodup_append.mp h).2.2
+      intro hm
+      exact this _ hm _ List.mem_cons_self rfl
+    rw [dictSet_of_not_mem d x.1 x.2 hx]
+    have : d ++ [(x.1, x.2)] ++ r = d ++ x :: r := by simp
+    rw [ih _ (by rw [this]; exact h), this]
+
+/-- with pairwise distinct keys the dict is the list itself. -/
+theorem dictOf_of_nodup {ν : Type} (l : List (Str × ν)) (h : (l.map (·.1)).Nodup) : dictOf l = l := by
+  unfold dictOf
+  rw [dictOf_aux_of_nodup l [] (by simpa using h)]
+  simp
+
+
+
+theorem inj_of_nodup_map {α β : Type} (f : α → β) (l : List α) (h : (l.map f).Nodup) {a b : α}
+    (ha : a ∈ l) (hb : b ∈ l) (hab : f a = f b) : a = b := by
+  induction l with
+  | nil => cases ha
+  | cons x r ih =>
+    simp only [List.map_cons, List.nodup_cons] at h
+    rcases List.mem_cons.mp ha with rfl | ha' <;> rcases List.mem_cons.mp hb with rfl | hb'
+    · rfl
+    · have : f a ∈ r.map f := List.mem_map.mpr ⟨b, hb', hab.symm⟩
+      exact absurd this h.1
+    · have : f b ∈ r.map f := List.mem_map.mpr ⟨a, ha', hab⟩
+      exact absurd this h.1
+    · exact ih h.2 ha' hb'
+
+theorem fileAt_rawTree (F : FileSet) (root : Str) (q : Str) (e : FEnt) (he : e ∈ F)
+    (hdist : (F.map fun e => comps e.name).Nodup)
+    (hq : comps q = comps root ++ comps e.name) :
+    C18.fileAt (rawTree ⟨.raw, F, root⟩) q = some ⟨comps root ++ comps e.name, e.id⟩ := by
+  unfold C18.fileAt rawTree
+  simp only
+  cases hf : List.find? (fun x : C18.Ent => x.comps == comps q)
+      (F.map fun e => (⟨comps root ++ comps e.name, e.id⟩ : C18.Ent)) with
+  | none =>
+    exfalso
+    have := List.find?_eq_none.mp hf ⟨comps root ++ comps e.name, e.id⟩
+      (List.mem_map.mpr ⟨e, he, rfl⟩)
+    simp [hq] at this
+  | some x =>
+    have hm := List.mem_of_find?_eq_some hf
+    have hp := List.find?_some hf
+    obtain ⟨e', he', rfl⟩ := List.mem_map.mp hm
+    simp only [beq_iff_eq, hq, List.append_cancel_left_eq] at hp
+    have : e' = e := by
+      exact inj_of_nodup_map (fun e => comps e.name) F hdist he' he hp
+    rw [this]
+
 end C19
